@@ -58,6 +58,14 @@ def const(v, desc=None):
     return ("const", None if v is None else str(v), desc)
 
 
+POP_NAMES = ("::pop", "::pop_front", "::pop_back")
+
+
+def is_pop_call(d):
+    """Callee path of a worklist removal (Vec::pop, VecDeque::pop_front / pop_back)."""
+    return d.endswith(POP_NAMES)
+
+
 def is_const(e, v=None):
     return e[0] == "const" and e[1] is not None and (v is None or e[1] == str(v))
 
